@@ -37,6 +37,12 @@ func (t *topLevelMethodStrategy) isMismatchVisibility(
 		return true
 	}
 
+	// a module method reached through extend (in a class method) or include
+	// (in an instance method) is defined as an instance method of the module
+	if methodT.IsExtend || methodT.IsInclude {
+		return false
+	}
+
 	return m.ctx.IsDefineStatic != methodT.IsStatic &&
 		m.ctx.GetMethod() != "" &&
 		m.ctx.GetMethod() != "new" &&
